@@ -229,7 +229,7 @@ def check_nonlinear(case) -> Outcome:
 
 def check_modelspec(case) -> Outcome:
     import pandas as pd
-    from formulaic import model_matrix
+    from ..libio import model_matrix
 
     out = Outcome()
     df = pd.DataFrame({"x": [1.0, 2.0, 3.0, 4.0], "A": pd.Categorical(["u", "v", "w", "u"]), "z": [0.5, 0.1, 0.2, 0.9]})
